@@ -74,7 +74,7 @@ def c13_witness(ver, ref, other, shard, block, wt, nshards):
     dumps = []
     for (vname, bk) in (ref, other):
         env = {"VERIF_BACKEND": bk, "VERIF_C13_DUMP": str(block)}
-        r = run_one(vname, "C13", wt, ver.seed, shard, nshards, os.path.join(vd.TARGET_ROOT, "out"), env, 3600)
+        r = run_one(vname, "C13", wt, ver.seed, shard, nshards, vd.scratch_dir(), env, 3600)
         d = None
         if r.get("data"):
             for n in r["data"]["notes"]:
@@ -108,7 +108,7 @@ def c13_lattice(ver):
                             if hooks and rel:
                                 continue
                             combos.append((std, dis, disct, tf, hooks, rel))
-    root = os.path.join(vd.TARGET_ROOT, "lattice")
+    root = os.path.join(vd.scratch_dir(), "lattice")
     shutil.rmtree(root, ignore_errors=True)
     os.makedirs(root, exist_ok=True)
 
@@ -300,7 +300,7 @@ def c20(ver):
     # callgrind: instruction counts of the measured region, hook-independent scaling check
     d = build("rel")
     binp = os.path.join(d, "scale")
-    outdir = os.path.join(vd.TARGET_ROOT, "out")
+    outdir = vd.scratch_dir()
     sizes = [1 << 12, 1 << 14, 1 << 16] if ver.tier == "quick" else [1 << 12, 1 << 14, 1 << 16, 1 << 18, 1 << 20]
     fams = list(range(29))
     bks = [1, 3] if ver.tier == "quick" else [1, 2, 3]
